@@ -64,8 +64,11 @@ CHECKS = {
              'tile the file (each item starts where its subheader ends, each subheader where the previous item ends, the last item ends at '
              'FL); the row segmentation covers [0, rows) by consecutive non-empty pieces within the row limit; decoding the '
              'display/attachment chain with relative locations returns exactly the segmentation; the complexity-level ladders regenerated '
-             'from the current Python equal the MIL-STD-2500C table (bridge theorems over the translated code). Header and subheader lengths '
-             'rest on the C13 record-length theorems. Every written file is parsed by an independent parser written from the standard.',
+             'from the current Python equal the MIL-STD-2500C table (bridge theorems over the translated code); for block-masked images '
+             'the recorded blocks are packed consecutively, absent blocks are exactly the marked ones and the data length is mask table '
+             '+ recorded blocks. Header and subheader lengths rest on the C13 record-length theorems. Every written file (SICD, SIDD and '
+             'general NITFWriter output with blocked / block-masked images and text / DES / RES segments) is parsed by an independent '
+             'parser written from the standard, including the mask table.',
         design='DESIGN.md 3.3, 3.4, 6/C03',
         note='proved: offsets/segmentation/ILOC/CLEVEL arithmetic. Correspondence: the writer bookkeeping (offsets, FL, ILOC chain, CLEVEL) '
              'vs the model on generated SICD/SIDD files; search/oracle: harness/nitfparse.py (hand transcription of the standard). IGEOLO '
